@@ -165,13 +165,15 @@ fn gce_scenario(rng: &mut Rng, out: &mut Out) {
             .crypto_provider(RustCryptoProvider::default())
             .identity_provider(BasicIdentityProvider::new())
             .extension_types(exts.iter().map(|e| ExtensionType::from(*e)).collect::<Vec<_>>())
+            // every client of this scenario also supports one custom proposal type, which the group requires
+            .custom_proposal_type(mls_rs::group::proposal::ProposalType::from(0xf00du16))
             .signing_identity(id, sk, CipherSuite::from(1u16))
             .build()
     };
     let required = |exts: &[u16]| {
         let mut l = ExtensionList::new();
         if !exts.is_empty() {
-            l.set_from(RequiredCapabilitiesExt::new(exts.iter().map(|e| ExtensionType::from(*e)).collect(), vec![], vec![])).unwrap();
+            l.set_from(RequiredCapabilitiesExt::new(exts.iter().map(|e| ExtensionType::from(*e)).collect(), vec![mls_rs::group::proposal::ProposalType::from(0xf00du16)], vec![])).unwrap();
         }
         l
     };
@@ -570,6 +572,28 @@ fn credential_type_scenario(rng: &mut Rng, out: &mut Out) {
                 out.fails.push("cred: setup join".into());
                 return;
             }
+        }
+    }
+    // an add + remove cycle first, so that the credential-type counters of the tree index have gone through a removal
+    {
+        let d = client("d-dummy", false, &both);
+        let kd = d.generate_key_package_message(Default::default(), Default::default(), None).unwrap();
+        let Ok(co) = groups[0].commit_builder().add_member(kd).and_then(|b| b.build()) else {
+            out.fails.push("cred: cannot add a compatible basic-credential member".into());
+            return;
+        };
+        groups[0].apply_pending_commit().unwrap();
+        for g in groups.iter_mut().skip(1) {
+            let _ = g.process_incoming_message(co.commit_message.clone());
+        }
+        let dl = groups[0].roster().members().iter().map(|m| m.index).max().unwrap_or(0);
+        let Ok(co) = groups[0].commit_builder().remove_member(dl).and_then(|b| b.build()) else {
+            out.fails.push("cred: cannot remove the dummy member".into());
+            return;
+        };
+        groups[0].apply_pending_commit().unwrap();
+        for g in groups.iter_mut().skip(1) {
+            let _ = g.process_incoming_message(co.commit_message.clone());
         }
     }
     // outsiders
